@@ -350,7 +350,55 @@ def rule_modules(gate_rules, basis_rules):
     return out
 
 
+def string_basis_exact():
+    """fixes/C03-3: does resolve_gates read a basis given as a string as ONE gate name?  (the code as found tests
+    `gate.name in basis` on the string, i.e. for substrings: S passes in "CSIGN", a gate named NOT in "CNOT")"""
+    from qutip_qip.circuit import QubitCircuit
+    verdicts = []
+    for name, basis in (("S", "CSIGN"), ("T", "CNOT"), ("S", "SQRTISWAP")):
+        qc = QubitCircuit(1)
+        qc.add_gate(name, targets=0)
+        try:
+            qc.resolve_gates(basis)
+            verdicts.append(False)
+        except NotImplementedError:
+            verdicts.append(True)
+        except Exception as e:
+            raise TranslatorError(f"variant probe string basis {basis!r}: {type(e).__name__}: {e}")
+    if len(set(verdicts)) != 1:
+        raise TranslatorError("resolve_gates treats the string bases differently (substring test in some, exact name in others)")
+    return verdicts[0]
+
+
+def render_variant(exact):
+    return ("/-! GENERATED by py/translate/decomp.py from /repo/src/qutip_qip/circuit/circuit.py — do not edit.\n"
+            "Which reading of a basis given as a STRING `resolve_gates` has in this tree (probed on the code):\n"
+            "`false` = `gate.name in basis` on the string, a substring test (the code as found);\n"
+            "`true`  = the string is one gate name (fixes/C03-3).  Used by the model of\n"
+            "`_decompose_multi_qubit_gates` (C13), which calls `resolve_gates(\"CNOT\")`. -/\n"
+            "namespace QipVerif.Gen\n\n"
+            f"def strExact : Bool := {'true' if exact else 'false'}\n\n"
+            "end QipVerif.Gen\n")
+
+
+def regenerate_variant():
+    """Gen/DecompVariant.lean; a source that is not recognised is held to the repaired reading"""
+    gdir = os.path.join(LEAN, "QipVerif", "Gen")
+    try:
+        exact = string_basis_exact()
+    except TranslatorError:
+        write_if_changed(os.path.join(gdir, "DecompVariant.lean"), render_variant(True))
+        raise
+    write_if_changed(os.path.join(gdir, "DecompVariant.lean"), render_variant(exact))
+    return exact
+
+
 def regenerate(seed=0):
+    verr = None
+    try:
+        regenerate_variant()
+    except TranslatorError as e:
+        verr = e
     gate_rules, basis_rules, gate_labs, basis_labs = extract()
     validate(gate_rules, basis_rules, random.Random(seed), gate_labs, basis_labs)
     gdir = os.path.join(LEAN, "QipVerif", "Gen")
@@ -364,4 +412,6 @@ def regenerate(seed=0):
     for f in os.listdir(gdir):
         if f.startswith("Rule_") and f[:-5] not in mods:
             os.remove(os.path.join(gdir, f))
+    if verr is not None:
+        raise verr
     return gate_rules, basis_rules, sorted(mods), changed
